@@ -23,7 +23,9 @@ RULE = ("pdf <level> <data> <cols> <scheme>: full symbols; the column count is r
         "schemes over Gray, Gray16, RGBA, NRGBA, CMYK.  pdfhl: highlevelEncode codewords for every data string; "
         "pdftext: encodeText from each of the 4 sub-modes; pdfrow: both row indicators of every row for rows,cols "
         "(quick 2..30, thorough 1..90 x 1..30) x levels 0..8, exhaustive; pdfnrows: calculateNumberOfRows; pdfec / "
-        "pdfdata: Compute and encodeData on random codewords for every level.  Oracle: the extracted reference reader "
+        "pdfdata: Compute and encodeData on random codewords for every level.  Informational (shape_choice, never a "
+        "violation, the shape is free): calcDimensions vs its model on dataWords 0..930 x eccWords 2,4,..,512, the float64-vs-exact "
+        "enumeration of its comparison, ~100 full symbols of pdf_encode_auto vs Encode.  Oracle: the extracted reference reader "
         "(pdf_valid / pdf_decode of spec/Pdf417Spec.v) on the implementation's pixels must be valid, name the requested "
         "level, show fewer pad codewords than columns and return the input bytes; the reference high-level decoder on "
         "VerifHighLevel's codewords must return the input; RS syndromes of Compute's output must vanish.  "
@@ -423,7 +425,88 @@ def public_line(line):
     return None
 
 
+ECC_COUNTS = [2 << l for l in range(9)]      # ErrorCorrectionWordCount of the levels 0..8: 2,4,...,512
+
+
+def _shape_of(out):
+    """(cols, rows) of a describe line, None for anything else"""
+    if not out or not out.startswith("OK "):
+        return None
+    try:
+        w, h = out.split(" ")[3].split("-")[1].split("x")
+        return ((int(w) - 1) // 17 - 4, int(h) // 2)
+    except Exception:
+        return None
+
+
+def shape_phase(rep, impl_exe, model_exe, rng, tier):
+    """INFORMATIONAL, never a violation: the properties leave the shape free within 2..30 rows/columns, and
+    every shape the implementation uses is checked by the `pdf` cases (oracle column count) and the reference
+    reader.  Here calcDimensions itself (hook VerifCalcDimensions) is compared with its model
+    (model/Pdf417DimM.v pdf_calc_dimensions_auto, floats as exact ratios) on the WHOLE domain
+    dataWords 0..930 x eccWords 2,4,...,512; the float64-vs-exact enumeration of the comparison
+    (harness tag pdfdimfloat) is re-run; and ~100 full symbols of pdf_encode_auto are compared with Encode."""
+    info = {"informational": True,
+            "domain": "dataWords 0..930 x eccWords in %s (calcDimensions via VerifCalcDimensions vs pdf_calc_dimensions_auto)" % ECC_COUNTS}
+    try:
+        # 1. float64 vs exact rationals on every pair of values the loop can compare
+        fl = (run_lines(impl_exe, ["pdfdimfloat"], shards=1)[0] or "")
+        fv = dict(kv.split("=", 1) for kv in fl.split(" ") if "=" in kv)
+        info["float_vs_exact"] = {
+            "what": "math.Abs(newRatio-3.0) > math.Abs(ratio-3.0) in float64 vs |n1-3d1|*d2 > |n2-3d2|*d1 in integers; newRatio over "
+                    "shapes 2..30 x 2..30, ratio over the same shapes, +Inf (rows = 0) and the initial 0.0",
+            "pairs": int(fv.get("pairs", -1)), "agree": int(fv.get("agree", -1)),
+            "exact_ties_between_different_ratios": int(fv.get("ties", -1)),
+            "division_by_zero_rows_is_plus_inf": fv.get("inf") == "T",
+            "always_agree": fv.get("pairs") == fv.get("agree") and fv.get("inf") == "T" and "pairs" in fv,
+            "disagreements": [] if fv.get("diff", "-") == "-" else fv.get("diff").split(";"),
+        } if fv else {"error": fl[:200]}
+        # 2. the whole domain of calcDimensions
+        lines = ["pdfdim %d %d" % (m, k) for m in range(0, 931) for k in ECC_COUNTS]
+        io = run_lines(impl_exe, lines, shards=min(NCPU, 4))
+        mo = run_lines(model_exe, lines, shards=min(NCPU, 4))
+        same = sum(1 for a, b in zip(io, mo) if a == b)
+        diff = [{"case": l, "impl": (a or "")[:40], "model": (b or "")[:40]} for l, a, b in zip(lines, io, mo) if a != b]
+        from collections import Counter
+        info.update({"compared": len(lines), "same": same, "examples_of_difference": diff[:12],
+                     "implementation_choices": dict(Counter(
+                         "none (0 0)" if a == "0 0" else "shape" if a and a[0].isdigit() else "other" for a in io))})
+        # 3. full symbols: pdf_encode_auto (= pdf_encode at the modelled choice) vs Encode
+        items = []
+        for lv in range(9):
+            free = 900 - 1 - (2 << lv)
+            for _ in range(11 if tier == "quick" else 60):
+                n = rng.choice([0, 1, 2, 5, 12, 30, 60, 120, 250, rng.randrange(1, 2 * free + 20)])
+                items.append((lv, rand_mix(rng, n) if n else b""))
+        items += [(9, b"A"), (255, b"A"), (0, b"A" * 1794), (0, b"A" * 1796)]
+        sl = ["pdfauto %d %s" % (lv, hx(d)) for lv, d in items]
+        si = run_lines(impl_exe, sl, shards=min(NCPU, 8))
+        sm = run_lines(model_exe, sl, shards=min(NCPU, 8))
+        sg = run_lines(model_exe, [l + " go" for l in sl[:40]], shards=min(NCPU, 8))
+        cat = Counter()
+        sdiff = []
+        for l, a, b in zip(sl, si, sm):
+            if a == b:
+                cat["same"] += 1
+            else:
+                sa, sb = _shape_of(a), _shape_of(b)
+                k = "different shape, both symbols" if sa and sb and sa != sb else "other difference"
+                cat[k] += 1
+                if len(sdiff) < 6:
+                    sdiff.append({"case": l[:120], "impl_shape": sa, "model_shape": sb, "impl": (a or "")[:60], "model": (b or "")[:60]})
+        info["full_symbols"] = {"compared": len(sl), "same": cat["same"], "categories": dict(cat),
+                                "symbols": sum(1 for a in si if a and a.startswith("OK ")),
+                                "examples_of_difference": sdiff,
+                                "model_encode_go_equals_encode_auto": "%d/%d" % (sum(1 for a, b in zip(sg, sm) if a == b), len(sg))}
+    except Exception as e:      # informational: never fails the check
+        info["error"] = ("%s: %s" % (type(e).__name__, e))[:300]
+    rep.cov["shape_choice"] = info
+    return []
+
+
 def extra(rep, impl_exe, model_exe, rng, tier):
     # returned barcodes must remain what they were when other symbols are encoded afterwards
     import held
-    return held.held_phase(rep, impl_exe, rng, ['pdf 0', 'pdf 2', 'pdf 5'], n=8 if tier == "quick" else 60)
+    viol = held.held_phase(rep, impl_exe, rng, ['pdf 0', 'pdf 2', 'pdf 5'], n=8 if tier == "quick" else 60)
+    shape_phase(rep, impl_exe, model_exe, rng, tier)     # informational, returns no violation
+    return viol
